@@ -1,6 +1,7 @@
 import Liquid.Std
 import Proofs.C05
 import Proofs.PostLemmas
+import Proofs.RunLemmas
 /-!
 # C05 (render level) — text, raw bodies and string values reach the output byte for byte
 -/
@@ -13,8 +14,8 @@ def succeeded {α} (p : Prog α) : Bool :=
   | .ok _ => true
   | _ => false
 
-/-- a run of plain writes followed by the final flush delivers the pending buffer and then the
-    written chunks, in order, unchanged -/
+/-- a run of verbatim writes followed by the final flush delivers the pending buffer and then the
+    written chunks, in order, unchanged — whatever the trim flag was when there is a chunk -/
 theorem writeAll_flush (cs : List Bytes) (env : Env) (buf : Bytes) :
     outputOf ((writeAllM cs >>= fun _ => flushM) { env := env, tw := { buf := buf, trim := false } }) = buf ++ cs.flatten ∧
     succeeded ((writeAllM cs >>= fun _ => flushM) { env := env, tw := { buf := buf, trim := false } }) = true := by
@@ -23,20 +24,15 @@ theorem writeAll_flush (cs : List Bytes) (env : Env) (buf : Bytes) :
     simp only [writeAllM, bind, M.bind, pure, M.pure, Prog.bind, flushM, outputOf, succeeded]
     cases buf <;> simp [Prog.runPure]
   | cons c cs ih =>
-    simp only [writeAllM, bind, M.bind, Prog.bind, writeM, Bool.false_eq_true, if_false]
-    cases buf with
-    | nil =>
-      simp only [List.isEmpty_nil, if_true, Prog.bind]
-      have := ih c
-      simp only [bind, M.bind] at this
-      simpa using this
-    | cons b bs =>
-      simp only [List.isEmpty_cons, Bool.false_eq_true, if_false, Prog.bind, outputOf, succeeded, Prog.runPure]
-      have := ih c
-      simp only [bind, M.bind, outputOf, succeeded] at this
-      constructor
-      · rw [this.1]; simp
-      · exact this.2
+    have h1 := writeVerbatim_runPure c env buf false
+    have h2 := ih []
+    simp only [writeAllM, bind, M.bind, Prog.bind_assoc, outputOf, succeeded] at h2 ⊢
+    rw [Prog.runPure_bind, h1]
+    simp only
+    rcases hr : (Prog.bind (writeAllM cs { env := env, tw := { buf := [], trim := false } }) fun x => flushM x.2).runPure with ⟨o, r⟩
+    rw [hr] at h2
+    simp only [List.nil_append] at h2
+    simp [h2.1, h2.2]
 
 /-- wrapping failures does not change what reaches the writer, nor whether the run succeeds -/
 theorem mapFail_bind_out {α β} (g : RawErr → RawErr) (p : Prog α) (f : α → Prog β) :
@@ -65,17 +61,17 @@ theorem frender_single (P : Prims) (O : OutPrims) (cfg : Cfg) (fs : FS) (fuel : 
   obtain ⟨st, s⟩ := r
   cases st <;> simp [Prog.bind, statusToProg, Prog.bind_assoc, M.pure, pure]
 
-/-- a node that is a run of plain writes, wrapped for failures, then the final flush: the output is
-    the written chunks, in order, unchanged -/
-theorem writes_then_flush_out (path : Bytes) (loc : Loc) (cs : List Bytes) (env : Env) :
-    outputOf ((wrapFailAt path loc (do writeAllM cs; pure Status.done) { env := env, tw := {} }).bind fun r =>
+/-- a node that is a program of writer operations, wrapped for failures, then the final flush: the
+    output is that of the program followed by a flush -/
+theorem prog_then_flush_out (path : Bytes) (loc : Loc) (m : M Unit) (env : Env) (out : Bytes)
+    (h : outputOf ((m >>= fun _ => flushM) { env := env, tw := {} }) = out) :
+    outputOf ((wrapFailAt path loc (do m; pure Status.done) { env := env, tw := {} }).bind fun r =>
         match r.1 with
         | .done => ((wrapFailAt path invalidLoc flushM) r.2).bind fun _ => (.ret () : Prog Unit)
         | .brk e => .fail (.located e)
-        | .cont e => .fail (.located e)) = cs.flatten := by
+        | .cont e => .fail (.located e)) = out := by
   unfold wrapFailAt M.mapFail
   rw [(mapFail_bind_out _ _ _).1]
-  have h := (writeAll_flush cs env []).1
   simp only [bind, M.bind, pure, M.pure, List.nil_append, Prog.bind_assoc] at h ⊢
   rw [← h]
   -- both sides: the writes, then a flush (wrapped or not), then no further output
@@ -101,17 +97,24 @@ theorem writes_then_flush_out (path : Bytes) (loc : Loc) (cs : List Bytes) (env 
       rw [this]
   exact key _
 
+/-- a node that is a run of verbatim writes, wrapped for failures, then the final flush: the output is
+    the written chunks, in order, unchanged -/
+theorem writes_then_flush_out (path : Bytes) (loc : Loc) (cs : List Bytes) (env : Env) :
+    outputOf ((wrapFailAt path loc (do writeAllM cs; pure Status.done) { env := env, tw := {} }).bind fun r =>
+        match r.1 with
+        | .done => ((wrapFailAt path invalidLoc flushM) r.2).bind fun _ => (.ret () : Prog Unit)
+        | .brk e => .fail (.located e)
+        | .cont e => .fail (.located e)) = cs.flatten := by
+  apply prog_then_flush_out
+  simpa using (writeAll_flush cs env []).1
+
 /-- **C05 (text).** A template that is a single text node renders to exactly that text. -/
 theorem text_renders_itself (P : Prims) (O : OutPrims) (cfg : Cfg) (fs : FS) (fuel line : Nat) (src : Bytes) (env : Env) :
     outputOf (frender P O cfg fs fuel [.text line src] env) = src := by
   rw [frender_single]
-  have hprog : (do writeM src; pure Status.done : M Status) = (do writeAllM [src]; pure Status.done) := by
-    funext s
-    simp only [writeAllM, bind, M.bind, pure, M.pure, Prog.bind_assoc, Prog.bind]
-  have := writes_then_flush_out cfg.path ⟨line, true⟩ [src] env
-  simp only [List.flatten_cons, List.flatten_nil, List.append_nil] at this
+  have := prog_then_flush_out cfg.path ⟨line, true⟩ (writeM src) env src (by
+    cases src <;> simp [bind, M.bind, Prog.bind, writeM, flushM, outputOf, Prog.runPure])
   simp only [renderNode, mkCtx]
-  rw [hprog]
   exact this
 
 /-- **C05 (raw).** The body of a raw block is emitted exactly as written, whatever tag-like text
